@@ -31,7 +31,7 @@ MONITORS = ["c05"]
 
 def build_cases(ctx):
     n = ctx.budget(300, 6000)
-    cases = gwcheck.gen_cases(ctx, "c05", n // 2, mqtt_rate=0.15)
+    cases = scenarios_a.generic_cases(ctx, "c05", n // 2, mqtt_rate=0.15)
     for i in range(n - n // 2):
         rng = ctx.rng("c05d", i)
         cfg = gwcheck.make_cfg(rng)
